@@ -16,7 +16,7 @@ CLAIMED = {
          "static analysis: path-sensitive error-provenance (wrap-chain) abstract interpretation over go/ssa", "DESIGN.md §5 C04"),
  "C05": ("Sound static decision over all abstract paths of the single-node Run that a context observation precedes prep and every attempt, and that every cancelled edge returns a wrapped ctx.Err() without further callbacks. Promptness/timing not decided.",
          "static analysis: path-sensitive context-observation typestate over go/ssa", "DESIGN.md §5 C05"),
- "C06": ("Sound static decision on all abstract paths of the batch run (28-cell case split over configuration, node type and prep type; task closure inlined at Submit): slot i is written only through the iteration's own index from the outcome of items[i]; len(results)=len(items); Wait separates the last Submit from post; post once with (items, results); function-style exec runs the user's function exactly once for every item whatever the item carries. Completion order is irrelevant once these hold; the memory-model visibility is taken from sync.",
+ "C06": ("Sound static decision on all abstract paths of the batch run (28-cell case split over configuration, node type and prep type; task closure inlined at Submit): slot i is written only through the iteration's own index from the outcome of items[i]; len(results)=len(items); Wait separates the last Submit from post; post once with (items, results); function-style exec runs the user's function exactly once for every item whatever the item carries; every slice index on the batch paths is provably in bounds; post is handed empty lists only when prep's list is known to be empty. Completion order is irrelevant once these hold; the memory-model visibility is taken from sync.",
          "static analysis: path-sensitive slot-coverage/provenance abstract interpretation over go/ssa", "DESIGN.md §5 C06"),
  "C07": ("Sound static decision: continue mode has no early loop exit; exactly one exec chain per item unless cancelled; per-item chain obeys the C02 rules; the per-item path's write effects are its own slot and boolean constants to the mutex-guarded flag only; failed slots hold the last attempt's/fallback's error; function-style exec never passes an item over; the mode setters write the mode.",
          "static analysis: path-sensitive per-item typestate + effect analysis over go/ssa", "DESIGN.md §5 C07"),
@@ -42,7 +42,7 @@ CLAIMED = {
          "static analysis: compositional symbolic exploration of adapter pairs + wrapper summaries vs. specification", "DESIGN.md §5 C17"),
  "C18": ("Sound static decision that every nil-error return of Run (single, batch, empty batch) carries a provably non-empty action.",
          "static analysis: path-sensitive return-predicate analysis over go/ssa", "DESIGN.md §5 C18"),
- "C19": ("Sound static decision that the option, NodeBuilder and BatchNodeBuilder form of each setting have equal single-field effect summaries (scalar settings store their argument unconditionally and unchanged; Any-style settings install wrappers with equal path signatures), that constructors apply every accepted option exactly once in argument order and accept the same option kinds, that option classes write disjoint fields (so any mixture is last-wins), that unconfigured nodes have the documented defaults and getters/constants agree, and that the lifecycle reads the configuration through the getters of the node being run.",
+ "C19": ("Sound static decision that the option, NodeBuilder and BatchNodeBuilder form of each setting have equal single-field effect summaries (scalar settings store their argument unconditionally and unchanged; Any-style settings install wrappers with equal path signatures), that constructors apply every accepted option exactly once in argument order and accept the same option kinds, that option classes write disjoint fields (so any mixture is last-wins), that unconfigured nodes have the documented defaults and getters/constants agree, and that the lifecycle reads the configuration through the getters of the node being run, that applying an option object runs its setter once on the node, and that every configurable function field is called by a phase method.",
          "static analysis: setter effect summaries across forms + constructor dispatch/apply-loop typestate + default summaries", "DESIGN.md §5 C19"),
  "C20": ("Sound static decision of the structural cause of the timing statement: a wait event with the node's GetWait() duration lies exactly between a failed attempt and the next (unless wait<=0 is established), none before the first or after the last attempt, every wait selects on ctx.Done(), no time.Sleep; every form of the wait setter stores its argument unconditionally and the getter returns that field. Elapsed time itself is the time package's contract.",
          "static analysis: path-sensitive wait-event typestate over go/ssa", "DESIGN.md §5 C20"),
